@@ -31,6 +31,15 @@ from hypothesis import strategies as st
 NIL = None
 
 
+def _f32(x):
+    """SQF numbers are single precision"""
+    import struct
+    try:
+        return struct.unpack("f", struct.pack("f", x))[0]
+    except OverflowError:
+        return float("inf") if x > 0 else float("-inf")
+
+
 class Fault(Exception):
     """the reference semantics does not define this program (generator bug)"""
 
@@ -293,7 +302,7 @@ class Model:
                     _, left = self.block(body, {var.lower(): v})
                     if left:
                         break
-                    v = v + step
+                    v = _f32(v + step)
                 val = ("LOOP",)
             elif k == "foreach":
                 arr = self.ev(s[1])
@@ -335,11 +344,11 @@ class Model:
             return self.get(e[1])
         if k == "+":
             a, b = self.ev(e[1]), self.ev(e[2])
-            return a + b
+            return _f32(a + b)
         if k == "-":
-            return self.ev(e[1]) - self.ev(e[2])
+            return _f32(self.ev(e[1]) - self.ev(e[2]))
         if k == "*":
-            return self.ev(e[1]) * self.ev(e[2])
+            return _f32(self.ev(e[1]) * self.ev(e[2]))
         if k == "<":
             return self.ev(e[1]) < self.ev(e[2])
         if k == ">":
